@@ -438,6 +438,9 @@ func (w *govcWriter) Write(p []byte) (int, error) {
 // buildHarness renders the test source for the given model values.
 func buildHarness(rd *replayData, vals []string) (src string, ok bool, why string) {
 	fn := rd.fn
+	if fn.Pkg == nil {
+		return "", false, "generic instance (no replay harness)"
+	}
 	pkg := fn.Pkg.Pkg
 	h := &harness{pkg: pkg, imports: map[string]bool{"testing": true, "fmt": true, "io": true}}
 	b := &h.body
